@@ -180,6 +180,7 @@ func (p *pkgInfo) funcs() map[fnKey]*ast.FuncDecl {
 			}
 		}
 	}
+	inlineViews(p, m) // code_lend.go: view methods used as range operands are inlined at source level (idempotent)
 	return m
 }
 
